@@ -93,8 +93,17 @@ structure LocalPointer where
   allocation_offset : Nat
   deriving DecidableEq, Repr, Inhabited
 
+/-- A raw address (`*mut ()`), as handed to clone / drop / eq and runtime functions.  Only its
+    provenance is modelled: the address of a constant owned by the runtime, or the address of a byte
+    of an evaluator allocation (represented by that byte; taking it panics when the byte does not
+    exist, like `&self.inner[offset]`). -/
+inductive RawPtr
+  | global (addr : Nat)
+  | byte (b : UInt8)
+  deriving DecidableEq, Repr, Inhabited
+
 structure GlobalPointer where
-  ptr : Nat
+  ptr : RawPtr
   deriving DecidableEq, Repr, Inhabited
 
 inductive Pointer
@@ -118,7 +127,10 @@ structure Memory where
 
 /-- What lies behind a `Pointer::Global` (a constant owned by the runtime) is outside the
     model: an uninterpreted function of the address. -/
-opaque Raw.read (ptr size : Nat) : List UInt8
+opaque Raw.read (ptr : RawPtr) (size : Nat) : List UInt8
+
+/-- `&x as *const _ as *mut _`: the address of an existing byte -/
+def Raw.of_ref (b : UInt8) : RawPtr := .byte b
 
 /-! ### control flow -/
 
@@ -126,6 +138,13 @@ opaque Raw.read (ptr size : Nat) : List UInt8
 def Vec.find_map {α β} (xs : List α) (f : α → Option β) : Option β := xs.findSome? f
 def RBool.then_some {α} (b : Bool) (a : α) : Option α := if b then some a else none
 def ROpt.unwrap_or {α} (o : Option α) (d : α) : α := o.getD d
+
+/-- where the evaluator loop goes after `Return`: on at `pc` (assigning the returned value to a
+    variable of the caller), or out of `eval` with the value. -/
+inductive Flow
+  | resume (pc : Nat) (assign : Option (Nat × IrValue))
+  | finish (val : Option IrValue)
+  deriving DecidableEq, Repr, Inhabited
 
 /-- `Option<impl Iterator>.into_iter().flatten()`: the items, or nothing -/
 def ROpt.flatten_iter {α} (o : Option (List α)) : List α := o.getD []
